@@ -296,9 +296,32 @@ class VKey(V):
         return "VKey(%s)" % self.t
 
 
+INT_KEY = z3.Function("key_of_int", IntS, KeyS)
+KEY_INT = z3.Function("int_of_key", KeyS, IntS)
+
+
+def int_key_axiom():
+    """distinct integers are distinct dict keys"""
+    a = z3.Int("ika")
+    return z3.ForAll([a], KEY_INT(INT_KEY(a)) == a, patterns=[INT_KEY(a)])
+
+
+class TMap(T):
+    """nested dict of the given depth with integer leaves"""
+    def __init__(self, depth):
+        self.depth = depth
+
+    def __repr__(self):
+        return "map%d" % self.depth
+
+
 def key_term(k):
     if isinstance(k, VKey):
         return k.t
+    if isinstance(k, VInt):
+        return INT_KEY(k.t)
+    if isinstance(k, int) and not isinstance(k, bool):
+        return INT_KEY(z3.IntVal(k))
     if isinstance(k, str):
         return STR_KEY(z3.StringVal(k))
     if isinstance(k, VStr):
@@ -625,6 +648,10 @@ def fresh(ty, name, idx=(), assume=None):
         return VList(n, get=get, et=ty.elem)
     if isinstance(ty, TRec):
         return VRec(ty.cls, {k: fresh(t, name + "_" + k, idx, assume) for k, t in ty.fields.items()})
+    if isinstance(ty, TMap) and not idx:
+        if assume is not None:
+            assume.append(int_key_axiom())
+        return VMap.fresh(ty.depth, name)
     raise Unsupported("fresh value of type %r" % (ty,))
 
 
